@@ -4,6 +4,7 @@ META = dict(
     level_text='Every loop of stride/compute_strides/compute_offset/compute_indices (instantiated for utl::static_vector<size_t,8>, rank 0..8 symbolic, all 64-bit extents) is closed by a loop contract and every function postcondition is discharged by CBMC (dfcc); products/quotients are uninterpreted with sound axioms, bounds/overflow/division checks are on. The mixed-radix bijection over these spec functions is a separate lemma.',
     level_note='Trusted: clang AST, cxx2c rendering, CBMC; UF axioms for * / %; glue between index functions and ndarray operator() is not under contract.',
     trusted_base=[
+        'textual correspondence between spec_prod/spec_offset in spec/c01.h and prod/offset/indices in lemmas/MixedRadix.lean (about 10 lines each); Lean 4.33 kernel',
         'clang 14 front end (AST of the instantiated templates)', 'engine/cxx2c.py (C++ AST -> C rendering)',
         'cbmc 6.11.0 / goto-instrument --dfcc (contract instrumentation, SAT back end)',
         'C++ references are valid and parameters do not alias outputs (harness passes distinct objects)',
@@ -13,11 +14,21 @@ META = dict(
         'ghost traces (HP, SO, EI) are functional definitions assumed in the precondition',
         'configuration: -DNDEBUG, STL enabled, shapes/indices of kind utl::static_vector<size_t,8> (rank 0..8 symbolic)',
     ],
+    explanation='CBMC proves: the real stride/compute_strides/compute_offset/compute_indices equal the spec functions spec_prod / spec_offset / (o / stride) % extent for every rank 0..8 and all 64-bit extents (products and quotients uninterpreted + axioms). Lean (core, no Mathlib) proves over the same recursions on natural numbers: offset(indices o d) = o for o < prod d; indices(offset idx d) = idx and offset idx d < prod d for in-bounds idx; offset strictly monotone in the lexicographic order; offsetC idx d = offset (reverse idx) (reverse d). The C<->Lean correspondence of the three recursions is by inspection (trusted) and cross-checked bit-precisely for rank <= 3, extents <= 6 in the thorough tier.',
     not_covered=['compile-time-constant and tuple index containers (type-level)', 'extents whose product exceeds 2^64'],
 )
 UNITS = [
+    Unit('ndindex_at.uf', 'c01', 'verif_ndindex_at', mode='uf', unwind=10, clause='enumerating positions: ndindex(shape)[i] is the multi-index of flat position i, inside the shape'),
+    Unit('ndindex_size.uf', 'c01', 'verif_ndindex_size', mode='uf', unwind=10, clause='enumeration length is the element count'),
+    Unit('product.uf', 'c01', 'verif_product', mode='uf', unwind=10, clause='element count is the product of the extents'),
     Unit('stride.uf', 'c01', 'verif_stride', mode='uf', unwind=10, clause='strides are the products of the trailing extents'),
     Unit('compute_strides.uf', 'c01', 'verif_compute_strides', mode='uf', unwind=10, clause='strides are the products of the trailing extents'),
     Unit('compute_offset.uf', 'c01', 'verif_compute_offset', mode='uf', unwind=10, clause='offset is the stride-weighted sum of the index'),
     Unit('compute_indices.uf', 'c01', 'verif_compute_indices3', mode='uf', unwind=10, clause='index = (offset / stride) mod extent; inside the shape'),
+    Unit('crosscheck.roundtrip_small', 'c01', None, lemma='lemma_roundtrip_small', mode='bp', unwind=10, timeout=900,
+         bounded='rank <= 3, extents 1..6 (bit-precise cross-check of the C spec functions against the Lean definitions)', tier='thorough',
+         clause='flat -> multi-index -> flat is the identity (bounded cross-check of L1)'),
+]
+LEMMAS = [
+    Lemma('L1+L2 mixed radix (MixedRadix.lean)', 'MixedRadix.lean', clause='round trips both ways are the identity; produced indices lie inside the shape; enumeration visits every multi-index exactly once in row-major order (offset strictly monotone w.r.t. lexicographic order); column-major offset = row-major offset of the reversed index/shape'),
 ]
